@@ -153,49 +153,63 @@ Proof. exact insert_dl_sorted. Qed.
 Print Assumptions C10_dlopen_list_sorted.
 
 (* ---------------------------------------------------------------- dlopen, record side *)
-(* "a module's load event precedes all records at its addresses": in the model of the dlopen()
-   wrapper with the clock read on entry, at ANY dlopen node of a thread's history - outermost or
-   issued by a constructor - the opened library and (fixed code, 0c4417a) every dependency mapped
-   with it get a DLOP message stamped with the entry time of the outermost dlopen in progress, and
-   every record made while the library is loaded (constructors, C++ global initialisers, whatever
-   they call, functions of the dependencies) is later ... *)
-Theorem C10_load_precedes_ctor_records : forall fixed outer base tab deps ctor clk c' recs dls,
-  outer_ok outer clk ->
-  run_act true fixed outer (ADlopen base tab deps ctor) clk = (c', recs, dls) ->
-  let stamp := dl_stamp fixed outer clk in
+(* Model of the dlopen() wrapper with its per-thread state (clock, dlopen_depth, dlopen_start) over
+   every path: a load (library + dependencies + constructors that may dlopen again), dlopen(NULL)
+   (early return), a call that maps nothing (failed, RTLD_NOLOAD, already loaded, thread not traced).
+   dlopen_depth is back at its entry value after ANY sequence of such calls ... *)
+Theorem C10_dlopen_depth_balanced : forall early fixed l st, w_ok st ->
+  w_depth (fst (fst (run_acts early fixed true l st))) = w_depth st.
+Proof. exact depth_balanced. Qed.
+Print Assumptions C10_dlopen_depth_balanced.
+
+(* "a module's load event precedes all records at its addresses": at ANY dlopen node of a thread's
+   history - outermost or issued by a constructor, after any earlier calls - the opened library and
+   (since 0c4417a) every dependency mapped with it get a DLOP message whose stamp is earlier than
+   every record made while the library is loaded; outside any dlopen the stamp is the call's own
+   entry time *)
+Theorem C10_load_precedes_ctor_records : forall fixed st base tab deps ctor st' recs dls,
+  w_ok st ->
+  run_act true fixed true (ADlopen base tab deps ctor) st = (st', recs, dls) ->
+  let stamp := dl_stamp fixed st in
   In (mkDl stamp base tab) dls /\
   (fixed = true -> forall d, In d deps -> In (mkDl stamp (fst d) (snd d)) dls) /\
-  (forall t a, In (t, a) recs -> stamp < t) /\ stamp <= clk < c'.
+  (forall t a, In (t, a) recs -> stamp < t) /\ stamp <= w_clk st /\
+  (w_depth st = 0%nat -> stamp = w_clk st).
 Proof. exact load_precedes_ctor_records. Qed.
 Print Assumptions C10_load_precedes_ctor_records.
 
-(* ... and so is every record of the rest of the run *)
-Theorem C10_load_precedes_all_records : forall fixed base tab deps ctor rest clk c' recs dls,
-  run_acts true fixed None (ADlopen base tab deps ctor :: rest) clk = (c', recs, dls) ->
-  In (mkDl clk base tab) dls /\
-  (fixed = true -> forall d, In d deps -> In (mkDl clk (fst d) (snd d)) dls) /\
-  (forall t a, In (t, a) recs -> clk < t).
-Proof. exact load_precedes_all_records. Qed.
-Print Assumptions C10_load_precedes_all_records.
+(* from the start of a thread: a load that follows ANY prefix of loads, dlopen(NULL) and empty calls
+   is stamped with its own entry time - later than every record made before it (so a library is
+   never dated before the records of a library it replaces) and earlier than every record after *)
+Theorem C10_load_after_prefix : forall fixed pre base tab deps ctor rest clk s1 r1 d1 st' recs dls,
+  run_acts true fixed true pre (w0 clk) = (s1, r1, d1) ->
+  run_acts true fixed true (ADlopen base tab deps ctor :: rest) s1 = (st', recs, dls) ->
+  In (mkDl (w_clk s1) base tab) dls /\
+  (fixed = true -> forall d, In d deps -> In (mkDl (w_clk s1) (fst d) (snd d)) dls) /\
+  (forall t a, In (t, a) recs -> w_clk s1 < t) /\
+  (forall t a, In (t, a) r1 -> t < w_clk s1).
+Proof. exact load_after_prefix. Qed.
+Print Assumptions C10_load_after_prefix.
 
-(* the same two statements for the wrapper as built: both flags are derived from the C text of
-   libmcount/wrap.c on every run (is mcount_gettime() called before real_dlopen()?  does
-   dlopen_base_callback() compare the library name with the dlopen() argument?) *)
-Theorem C10_load_precedes_ctor_records_as_built : forall outer base tab deps ctor clk c' recs dls,
-  outer_ok outer clk ->
-  run_act wrap_dlopen_clock_first wrap_dlopen_reports_all outer (ADlopen base tab deps ctor) clk = (c', recs, dls) ->
-  let stamp := match outer with Some t0 => t0 | None => clk end in
+(* the same for the wrapper as built: the three flags are derived from the C text of
+   libmcount/wrap.c on every run (clock read before real_dlopen()?  no name filter in the
+   callback?  dlopen_depth decremented before the first return after real_dlopen()?) *)
+Theorem C10_load_precedes_ctor_records_as_built : forall st base tab deps ctor st' recs dls,
+  w_ok st ->
+  run_act wrap_dlopen_clock_first wrap_dlopen_reports_all wrap_dlopen_depth_balanced (ADlopen base tab deps ctor) st = (st', recs, dls) ->
+  let stamp := if Nat.eqb (w_depth st) 0 then w_clk st else w_start st in
   In (mkDl stamp base tab) dls /\ (forall d, In d deps -> In (mkDl stamp (fst d) (snd d)) dls) /\
-  (forall t a, In (t, a) recs -> stamp < t).
+  (forall t a, In (t, a) recs -> stamp < t) /\ w_depth st' = w_depth st.
 Proof. exact load_precedes_ctor_records_as_built. Qed.
 Print Assumptions C10_load_precedes_ctor_records_as_built.
 
-Theorem C10_load_precedes_all_records_as_built : forall base tab deps ctor rest clk c' recs dls,
-  run_acts wrap_dlopen_clock_first wrap_dlopen_reports_all None (ADlopen base tab deps ctor :: rest) clk = (c', recs, dls) ->
-  In (mkDl clk base tab) dls /\ (forall d, In d deps -> In (mkDl clk (fst d) (snd d)) dls) /\
-  (forall t a, In (t, a) recs -> clk < t).
-Proof. exact load_precedes_all_records_as_built. Qed.
-Print Assumptions C10_load_precedes_all_records_as_built.
+Theorem C10_load_after_prefix_as_built : forall pre base tab deps ctor rest clk s1 r1 d1 st' recs dls,
+  run_acts wrap_dlopen_clock_first wrap_dlopen_reports_all wrap_dlopen_depth_balanced pre (w0 clk) = (s1, r1, d1) ->
+  run_acts wrap_dlopen_clock_first wrap_dlopen_reports_all wrap_dlopen_depth_balanced (ADlopen base tab deps ctor :: rest) s1 = (st', recs, dls) ->
+  In (mkDl (w_clk s1) base tab) dls /\ (forall d, In d deps -> In (mkDl (w_clk s1) (fst d) (snd d)) dls) /\
+  (forall t a, In (t, a) recs -> w_clk s1 < t) /\ (forall t a, In (t, a) r1 -> t < w_clk s1).
+Proof. exact load_after_prefix_as_built. Qed.
+Print Assumptions C10_load_after_prefix_as_built.
 
 (* a library whose load event is not later than the record is searched for it *)
 Theorem C10_loaded_library_is_searched : forall d t a, d_time d <= t ->
@@ -205,11 +219,11 @@ Print Assumptions C10_loaded_library_is_searched.
 
 (* wrapper + lookup: a constructor's record inside a symbol of its library, or of a dependency
    mapped by the same call, resolves to that symbol *)
-Theorem C10_dlopen_ctor_record_resolves : forall outer base tab deps ctor clk c' recs dls s l1 l2 t a x lb ltab,
-  outer_ok outer clk ->
-  run_act true true outer (ADlopen base tab deps ctor) clk = (c', recs, dls) -> In (t, a) recs ->
+Theorem C10_dlopen_ctor_record_resolves : forall st base tab deps ctor st' recs dls s l1 l2 t a x lb ltab,
+  w_ok st ->
+  run_act true true true (ADlopen base tab deps ctor) st = (st', recs, dls) -> In (t, a) recs ->
   (lb, ltab) = (base, tab) \/ In (lb, ltab) deps ->
-  se_dl s = l1 ++ mkDl (dl_stamp true outer clk) lb ltab :: l2 ->
+  se_dl s = l1 ++ mkDl (dl_stamp true st) lb ltab :: l2 ->
   find_sym ltab ((a - lb) mod W64) = Some x ->
   (forall d', In d' l2 -> dl_hit t a d' = None) ->
   find_dlsym s t a = Some x.
@@ -223,9 +237,9 @@ Print Assumptions C10_dlop_messages_kept.
 (* the order inside the wrapper is essential: reading the clock after real_dlopen() makes the
    constructor's record predate the DLOP time stamp and the library is skipped for it *)
 Theorem C10_late_timestamp_refuted :
-  let '(_, recs, dls) := run_act false true None (ADlopen 4096 tab_plugin [] [ARec 4360]) 10 in
-  recs = [(10, 4360)] /\ dls = [mkDl 11 4096 tab_plugin] /\
-  find_dlsym (mkSess 0 [] 1 1 0 (mkSinfo 0 [] []) (dl_list dls)) 10 4360 = None /\
+  let '(_, recs, dls) := run_act false true true (ADlopen 4096 tab_plugin [] [ARec 4360]) (w0 10) in
+  recs = [(11, 4360)] /\ dls = [mkDl 12 4096 tab_plugin] /\
+  find_dlsym (sess_of dls) 11 4360 = None /\
   spec_find tab_plugin (4360 - 4096) = Some (mkSym 256 64 84 [105;110;105;116]).
 Proof. exact late_timestamp_refuted. Qed.
 Print Assumptions C10_late_timestamp_refuted.
@@ -233,12 +247,35 @@ Print Assumptions C10_late_timestamp_refuted.
 (* the code as found before fix 0c4417a (name filter in dlopen_base_callback): a dependency
    mapped by the same dlopen() call got no DLOP message and its records were not resolved *)
 Theorem C10_dlopen_dependency_legacy_refuted :
-  let '(_, recs, dls) := run_act true false None (ADlopen 4096 tab_plugin [(8192, tab_dep)] [ARec 4360; ARec 8710]) 10 in
+  let '(_, recs, dls) := run_act true false true (ADlopen 4096 tab_plugin [(8192, tab_dep)] [ARec 4360; ARec 8710]) (w0 10) in
   recs = [(11, 4360); (12, 8710)] /\ dls = [mkDl 10 4096 tab_plugin] /\
-  find_dlsym (mkSess 0 [] 1 1 0 (mkSinfo 0 [] []) (dl_list dls)) 12 8710 = None /\
+  find_dlsym (sess_of dls) 12 8710 = None /\
   spec_find tab_dep (8710 - 8192) = Some (mkSym 512 32 84 [100;101;112]).
 Proof. exact dependency_legacy_refuted. Qed.
 Print Assumptions C10_dlopen_dependency_legacy_refuted.
+
+(* the balance of dlopen_depth is essential: a wrapper that keeps it raised on the dlopen(NULL) path
+   dates every later load of the thread by that old call; a library mapped later over the range of
+   an unloaded one then takes over the first library's records *)
+Theorem C10_dlopen_null_path_leak_refuted :
+  let '(st', recs, dls) := run_acts true true false
+      [ADlnull; ADlopen 4096 tab_plugin [] []; ARec 4360; ADlopen 4096 tab_other [] []; ARec 4360] (w0 10) in
+  w_depth st' = 1%nat /\
+  recs = [(12, 4360); (14, 4360)] /\ map d_time dls = [10; 10] /\
+  find_dlsym (sess_of dls) 12 4360 = Some (mkSym 256 64 84 [111;116;104;101;114]) /\
+  spec_find tab_plugin (4360 - 4096) = Some (mkSym 256 64 84 [105;110;105;116]).
+Proof. exact null_path_leak_refuted. Qed.
+Print Assumptions C10_dlopen_null_path_leak_refuted.
+
+(* the code as found before fix bcf76bf: closing a library and opening it again sent no second DLOP
+   message; with another library mapped over the range in between, the reloaded library's calls
+   were attributed to that other library (first line); with the message they are not (second) *)
+Theorem C10_dlopen_reload_legacy_refuted :
+  let dls := [mkDl 10 4096 tab_plugin; mkDl 14 4096 tab_other] in
+  find_dlsym (sess_of dls) 20 4360 = Some (mkSym 256 64 84 [111;116;104;101;114]) /\
+  find_dlsym (sess_of (dls ++ [mkDl 18 4096 tab_plugin])) 20 4360 = Some (mkSym 256 64 84 [105;110;105;116]).
+Proof. exact reload_unreported_legacy_refuted. Qed.
+Print Assumptions C10_dlopen_reload_legacy_refuted.
 
 (* ---------------------------------------------------------------- PLT entries of an ELF file *)
 (* load_elf_dynsymtab / load_dyn_symbol (x86_64; the canonical-address test and both address
